@@ -13,6 +13,7 @@ from . import traces
 SCHEDS = {"lpsd": "lpsd_plan", "ltf": "ltf_plan", "vectorized": "vectorized_ltf_plan", "new": "new_ltf_plan"}
 ANALYZER_NAME = {"lpsd": "lpsd", "ltf": "ltf", "vectorized": "vectorized_ltf", "new": "new_ltf"}
 FULL_D_LIMIT = 256
+HUGE_N = 2 ** 18          # beyond this the Q12 frequency clauses leave 32-bit arithmetic: SchedTrace.tla HBin
 
 
 def ulps(a: float, b: float) -> int:
@@ -68,7 +69,7 @@ def record_plan(cfg):
             Lj, Kj = int(L[j]), int(K[j])
             nD = int(d.size)
             fj, rj, bj = float(f[j]), float(r[j]), float(b[j])
-            evj = {"t": "bin", "L": Lj, "K": Kj, "navg": int(navg[j]), "nD": nD}
+            evj = {"t": "bin" if N <= HUGE_N else "hbin", "L": Lj, "K": Kj, "navg": int(navg[j]), "nD": nD}
             if nD == 0:
                 evj.update(D=[], d0=-1, dlast=-1, mind=0, dev2=0)
             else:
@@ -80,7 +81,7 @@ def record_plan(cfg):
                 evj.update(D=[int(v) for v in d] if (N <= FULL_D_LIMIT and nD > 1) else [],
                            d0=int(d[0]), dlast=int(d[-1]), mind=int(diffs.min()) if nD > 1 else 0,
                            dev2=min(ideal2 or 0, 2 ** 30))
-            qf = traces.q(fj * N / fs, 4096)
+            qf = traces.q(fj * N / fs, 4096) if N <= HUGE_N else 0
             evj.update(qf=qf, qb=traces.q(min(bj, 2 ** 17), 4096), qO=traces.q(float(O[j]), 2 ** 20),
                        rl=ulps(rj * Lj, fs),
                        step=ulps(float(f[j + 1]), fj + rj) if j + 1 < nf else 0,
@@ -187,6 +188,13 @@ def grid_configs(tier: str, seed: int, scheds=("lpsd", "ltf", "vectorized", "new
         bn = rnd.randint(bd, max(bd, min((20 if rnd.random() < 0.3 else 8) * bd, (N * bd) // 2 - 1)))
         out.append(mk(N, on, od, bn, bd, rnd.randint(1, N), rnd.choice([1, 2, 3, 5, 7, 20, 100, 300]),
                       rnd.randint(1, 120), rnd.choice(scheds)))
+    # very long records with short segments: bins with 1e5 and more segments (SchedTrace.tla HBin)
+    for k, s in enumerate(x for x in ("ltf", "lpsd", "vectorized", "ltf", "new") if x in scheds):
+        if tier == "quick" and k >= 4:
+            break
+        N = [500000, 400000, 300000, 524287, 300000][k]
+        on, od = [(3, 4), (3, 4), (1, 2), (9, 10), (1, 2)][k]
+        out.append(dict(N=N, fs=[1.0, 10.0, 2.0, 1.0, 1.0][k], on=on, od=od, bn=1, bd=1, Lmin=1, Jdes=[100, 60, 100, 40, 30][k], Kdes=[100, 20, 50, 10, 10][k], sched=s))
     return [c for c in out if admissible(c)]
 
 
